@@ -76,7 +76,7 @@ inductive Res (α : Type) where
   | ok (a : α)
   | outOfFuel
   | trap          -- null dereference / out-of-bounds access in the C++
-  deriving Repr
+  deriving DecidableEq, Repr
 
 /-- clearExpandedMacros: `expandedMacros.erase(m)` for every macro ending at the token -/
 def PP.clear (s : PP) (ends : List String) : PP :=
@@ -295,7 +295,7 @@ inductive RRes (α : Type) where
   | ok (a : α)
   | outOfFuel
   | error          -- constraint violation (wrong number of arguments, unterminated invocation)
-  deriving Repr
+  deriving DecidableEq, Repr
 
 /-- named arguments and the variable part (joined with its commas) -/
 def refSplitVa (m : Macro) (args : List (List HTok)) : List (List HTok) × List HTok :=
@@ -305,56 +305,61 @@ def refSplitVa (m : Macro) (args : List (List HTok)) : List (List HTok) × List 
           | [] => []
           | a :: r => a ++ r.flatMap (fun x => (⟨commaTok, []⟩ : HTok) :: x))
 
-/-- C11 6.10.3.4 in Prosser's formulation -/
-def expandR : Nat → List Macro → List HTok → RRes (List HTok)
-  | 0, _, _ => .outOfFuel
-  | _ + 1, _, [] => .ok []
-  | f + 1, tbl, t :: ts =>
-    let keep : RRes (List HTok) :=
-      match expandR f tbl ts with
-      | .ok r => .ok (t :: r)
-      | e => e
-    if !t.tok.isIdent then keep else
-    match tbl.find? (fun m => m.name == t.tok.text) with
-    | none => keep
-    | some m =>
-      if t.hs.contains m.name then keep
-      else if !m.isFn then
-        let hs := hsUnion t.hs [m.name]
-        let body : List HTok := m.body.filterMap fun b => match b with | .raw x => some ⟨x, hs⟩ | _ => none
-        expandR f tbl (body ++ ts)
-      else
-        match ts with
-        | p :: ts' =>
-          if !p.tok.isOp "(" then keep else
-          match refArgs ts' 0 [] [] with
-          | none => .error
-          | some (args0, hsClose, rest) =>
-            -- `f()` has one empty argument for a one-parameter macro and none for a zero-parameter one
-            let args := if m.nparams = 0 && !m.variadic && args0 == [[]] then [] else args0
-            if args.length < m.nparams || (args.length > m.nparams && !m.variadic) then .error else
-            let hs := hsUnion (hsInter t.hs hsClose) [m.name]
-            let (named, va) := refSplitVa m args
-            -- every argument is completely macro-expanded before it is substituted
-            let rec expArgs : List (List HTok) → RRes (List (List HTok))
-              | [] => .ok []
-              | a :: r =>
-                match expandR f tbl a, expArgs r with
-                | .ok x, .ok y => .ok (x :: y)
-                | .outOfFuel, _ => .outOfFuel
-                | _, .outOfFuel => .outOfFuel
-                | _, _ => .error
-            match expArgs named, expandR f tbl va with
-            | .ok en, .ok ev =>
-              let body : List HTok := m.body.flatMap fun b =>
-                match b with
-                | .raw x => [⟨x, hs⟩]
-                | .arg i => (en.getD i []).map fun y => { y with hs := hsUnion y.hs hs }
-                | .va => ev.map fun y => { y with hs := hsUnion y.hs hs }
-              expandR f tbl (body ++ rest)
-            | .outOfFuel, _ => .outOfFuel
-            | _, .outOfFuel => .outOfFuel
-            | _, _ => .error
-        | [] => keep
+mutual
+  /-- C11 6.10.3.4 in Prosser's formulation -/
+  def expandR : Nat → List Macro → List HTok → RRes (List HTok)
+    | 0, _, _ => .outOfFuel
+    | _ + 1, _, [] => .ok []
+    | f + 1, tbl, t :: ts =>
+      let keep : RRes (List HTok) :=
+        match expandR f tbl ts with
+        | .ok r => .ok (t :: r)
+        | e => e
+      if !t.tok.isIdent then keep else
+      match tbl.find? (fun m => m.name == t.tok.text) with
+      | none => keep
+      | some m =>
+        if t.hs.contains m.name then keep
+        else if !m.isFn then
+          let hs := hsUnion t.hs [m.name]
+          let body : List HTok := m.body.filterMap fun b => match b with | .raw x => some ⟨x, hs⟩ | _ => none
+          expandR f tbl (body ++ ts)
+        else
+          match ts with
+          | p :: ts' =>
+            if !p.tok.isOp "(" then keep else
+            match refArgs ts' 0 [] [] with
+            | none => .error
+            | some (args0, hsClose, rest) =>
+              -- `f()` has one empty argument for a one-parameter macro and none for a zero-parameter one
+              let args := if m.nparams = 0 && !m.variadic && args0 == [[]] then [] else args0
+              if args.length < m.nparams || (args.length > m.nparams && !m.variadic) then .error else
+              let hs := hsUnion (hsInter t.hs hsClose) [m.name]
+              let (named, va) := refSplitVa m args
+              -- every argument is completely macro-expanded before it is substituted
+              match expandArgsR f tbl named, expandR f tbl va with
+              | .ok en, .ok ev =>
+                let body : List HTok := m.body.flatMap fun b =>
+                  match b with
+                  | .raw x => [⟨x, hs⟩]
+                  | .arg i => (en.getD i []).map fun y => { y with hs := hsUnion y.hs hs }
+                  | .va => ev.map fun y => { y with hs := hsUnion y.hs hs }
+                expandR f tbl (body ++ rest)
+              | .outOfFuel, _ => .outOfFuel
+              | _, .outOfFuel => .outOfFuel
+              | _, _ => .error
+          | [] => keep
+
+  /-- the complete expansion of every argument -/
+  def expandArgsR : Nat → List Macro → List (List HTok) → RRes (List (List HTok))
+    | 0, _, _ => .outOfFuel
+    | _ + 1, _, [] => .ok []
+    | f + 1, tbl, a :: r =>
+      match expandR f tbl a, expandArgsR f tbl r with
+      | .ok x, .ok y => .ok (x :: y)
+      | .outOfFuel, _ => .outOfFuel
+      | _, .outOfFuel => .outOfFuel
+      | _, _ => .error
+end
 
 end Occa.Cpp
